@@ -55,25 +55,36 @@ pub open spec fn ct(h: Hunk, k: int) -> int
     }
 }
 
-pub open spec fn hunk_wf(h: Hunk) -> bool {
+/// line k of the hunk is numbered by the running cursors and is a `+`, `-` or ` ` line
+pub open spec fn line_wf(h: Hunk, k: int) -> bool {
     let ls = h.spec_lines();
-    &&& forall|k: int| 0 <= k < ls.len() ==> kind(#[trigger] ls[k]) != Kind::Other
-    &&& forall|k: int| 0 <= k < ls.len() && (kind(#[trigger] ls[k]) == Kind::Add || kind(ls[k]) == Kind::Ctx)
+    &&& kind(ls[k]) != Kind::Other
+    &&& kind(ls[k]) == Kind::Add || kind(ls[k]) == Kind::Ctx
             ==> ls[k].target_line_no is Some && ls[k].target_line_no.unwrap() as int == ct(h, k)
-    &&& forall|k: int| 0 <= k < ls.len() && (kind(#[trigger] ls[k]) == Kind::Rem || kind(ls[k]) == Kind::Ctx)
+    &&& kind(ls[k]) == Kind::Rem || kind(ls[k]) == Kind::Ctx
             ==> ls[k].source_line_no is Some && ls[k].source_line_no.unwrap() as int == cs(h, k)
     // inside a run of changed lines every removed line precedes every added line
-    &&& forall|k: int| 0 < k < ls.len() && kind(#[trigger] ls[k]) == Kind::Rem ==> kind(ls[k - 1]) != Kind::Add
+    &&& k > 0 && kind(ls[k]) == Kind::Rem ==> kind(ls[k - 1]) != Kind::Add
+}
+
+pub open spec fn hunk_wf(h: Hunk) -> bool {
+    let ls = h.spec_lines();
+    &&& forall|k: int| 0 <= k < ls.len() ==> #[trigger] line_wf(h, k)
     // the header lengths are the numbers of lines on each side
     &&& cs(h, ls.len() as int) == src_first(h) + h.source_length
     &&& ct(h, ls.len() as int) == tgt_first(h) + h.target_length
 }
 
+/// hunks in file order, at least one unchanged line between hunk h and hunk h + 1
+pub open spec fn hunk_gap(f: PatchedFile, h: int) -> bool {
+    let hs = f.spec_hunks();
+    tgt_first(hs[h + 1]) > ct(hs[h], hs[h].spec_lines().len() as int)
+}
+
 pub open spec fn file_wf(f: PatchedFile) -> bool {
     let hs = f.spec_hunks();
     &&& forall|h: int| 0 <= h < hs.len() ==> hunk_wf(#[trigger] hs[h])
-    // hunks in file order, at least one unchanged line between two hunks
-    &&& forall|h: int| 0 <= h < hs.len() - 1 ==> tgt_first(hs[h + 1]) > ct(#[trigger] hs[h], hs[h].spec_lines().len() as int)
+    &&& forall|h: int| 0 <= h < hs.len() - 1 ==> #[trigger] hunk_gap(f, h)
 }
 
 // ---- expected entries ------------------------------------------------------------------------
